@@ -111,6 +111,8 @@ pub struct Runner {
   pub scripts: BTreeSet<String>,
   seqno: u64,
   pub hung: bool,
+  /// ordinal of the next update (a crash step counts as one)
+  pub update_no: u64,
 }
 
 fn sp_json(node: &Node, sp: SatPoint) -> Value {
@@ -152,6 +154,7 @@ impl Runner {
       scripts: BTreeSet::new(),
       seqno: 0,
       hung: false,
+      update_no: 0,
     })
   }
 
@@ -225,6 +228,8 @@ impl Runner {
       "flags": flags,
       "events": self.opts.events,
       "flagKey": flag_key,
+      "pair": self.sc.name.split_once('#').map(|(b, _)| b.to_string()).unwrap_or_default(),
+      "role": self.sc.name.split_once('#').map(|(_, r)| r.to_string()).unwrap_or_default(),
       "commitInterval": self.sc.commit_interval.unwrap_or(5000),
       "savepointInterval": self.sc.savepoint_interval.unwrap_or(10),
       "maxSavepoints": self.sc.max_savepoints.unwrap_or(2),
@@ -393,8 +398,10 @@ impl Runner {
         let indexed = if lists { self.indexed_ids()? } else { Vec::new() };
         let flagged = self.index().verif_unrecoverably_reorged();
         let chain = if lists { self.chain_ids() } else { Vec::new() };
+        let k = self.update_no;
+        self.update_no += 1;
         self.emit(json!({"e": "Update", "result": result, "text": text, "count": count,
-          "indexed": indexed, "chain": chain, "flagged": flagged}));
+          "indexed": indexed, "chain": chain, "flagged": flagged, "k": k}));
       }
       Err(_) => {
         // the update thread is left behind; the process exits after the trace is written
@@ -542,6 +549,7 @@ impl Runner {
 
   pub fn crash(&mut self, point: &str, occ: u64) -> Result<()> {
     // close our handle, run update in a child that aborts at the crash point
+    self.update_no += 1;
     let before = self.index().block_count()?;
     self.index = None;
     let exe = std::env::current_exe()?;
